@@ -10,6 +10,7 @@ mod c10;
 mod c11;
 mod c12;
 mod c14;
+mod c15;
 mod ctx;
 mod docs;
 mod obs;
@@ -39,6 +40,7 @@ fn registry(id: &str) -> Option<Box<dyn Check>> {
         "C11" => Some(Box::new(c11::C11)),
         "C12" => Some(Box::new(c12::C12)),
         "C14" => Some(Box::new(c14::C14)),
+        "C15" => Some(Box::new(c15::C15)),
         _ => None,
     }
 }
